@@ -371,19 +371,27 @@ class Program(BlockBase):  # R201
 
         """
         # pylint: disable=unused-argument
+        # The top-level symbol tables that exist before this parse.
+        tables_before = set(SYMBOL_TABLES._symbol_tables.keys())
         try:
             return Base.__new__(cls, string, _deepcopy=_deepcopy)
-        except NoMatchError:
-            # At the moment there is no useful information provided by
-            # NoMatchError so we pass on an empty string.
-            raise FortranSyntaxError(string, "")
-        except InternalSyntaxError as excinfo:
-            # InternalSyntaxError is used when a syntax error has been
-            # found in a rule that does not have access to the reader
-            # object. This is then re-raised here as a
-            # FortranSyntaxError, adding the reader object (which
-            # provides line number information).
-            raise FortranSyntaxError(string, excinfo)
+        except Exception as excinfo:
+            # The parse has failed so remove the symbol tables of any
+            # program units that had already been matched.
+            for name in set(SYMBOL_TABLES._symbol_tables.keys()) - tables_before:
+                SYMBOL_TABLES.remove(name)
+            if isinstance(excinfo, NoMatchError):
+                # At the moment there is no useful information provided by
+                # NoMatchError so we pass on an empty string.
+                raise FortranSyntaxError(string, "")
+            if isinstance(excinfo, InternalSyntaxError):
+                # InternalSyntaxError is used when a syntax error has been
+                # found in a rule that does not have access to the reader
+                # object. This is then re-raised here as a
+                # FortranSyntaxError, adding the reader object (which
+                # provides line number information).
+                raise FortranSyntaxError(string, excinfo)
+            raise
 
     def __getnewargs__(self):
         """Method to dictate the values passed to the __new__() method upon
